@@ -1,7 +1,7 @@
 import sys,glob,json
 sys.path.insert(0,'/verif')
 from mirsym.core import *
-p=Program(sorted(glob.glob("/verif/.cache/smir/t3-*.json"))[0])
+p=Program(sorted(glob.glob("/verif/.cache/smir/main-*.json"), key=__import__("os").path.getmtime)[-1])
 lo,hi=int(sys.argv[2]),int(sys.argv[3])
 for k,v in p.inst.items():
     if v['name'].endswith(sys.argv[1]) and 'body' in v:
